@@ -242,7 +242,7 @@ impl<'a> G<'a> {
             }
             Op::Take => {
                 st.kind = self.rng.below(3) as u8;
-                st.form = self.rng.below(2) as u8;
+                st.form = self.rng.below(4) as u8;
                 let mut sinks: Vec<u8> = vec![
                     SINK_DROP, SINK_DROP, SINK_DOWNCAST_KEEP, SINK_DOWNCAST_DROP, SINK_DOWNCAST_WRONG, SINK_MOVE_PUSH, SINK_MOVE_INSERT,
                     SINK_MUTATE, SINK_LAZY, SINK_SWAP, SINK_INSPECT,
